@@ -2560,6 +2560,30 @@ def _jump_post(ctx):
                 goals.append((f"skip-mark{n}.only-not-started", z3.Implies(z3.And(s.g >= 0, s.g < s.hi, s.cond), I._select(sarr, s.pidx + (s.g,)) == status(I, "NOT_STARTED"))))
                 skl = [t for t in ctx.st.effects if t.kind == "traversal" and t.data["fn"] == "get_skipped_stages"]
                 goals.append((f"skip-mark{n}.from-skipped-set", z3.BoolVal(bool(skl) and skl[0].data["result"].lid == s.lid)))
+        # the re-arm set: every stage of get_resettable_downstream_stages(target) other than source and target gets a
+        # mutation, and that mutation re-arms it (NOT_STARTED) while keeping the stage's own jump budget
+        rs = [t for t in ctx.st.effects if t.kind == "traversal" and t.data["fn"] == "get_resettable_downstream_stages"]
+        its0 = I.st.index_terms.get(stages.lid, [])
+        if rs and len(its0) >= 2:
+            L = rs[0].data["result"]
+            idsL = I._elem_array(L.lid, "id", z3.IntSort())
+            src_id = I.getattr(SElem(stages.lid, tuple(its0[0])), "id").t
+            tgt_id = I.getattr(SElem(stages.lid, tuple(its0[1])), "id").t
+            gq = z3.Int("rearm_g")
+            mine = [sg for sg in symb if sg.lid == L.lid and not sg.pidx and hasattr(sg.mapv, "items") and len(sg.mapv.items) == 2
+                    and isinstance(sg.mapv.items[0], SStr) and z3.eq(z3.simplify(z3.substitute(sg.mapv.items[0].t, (sg.g, gq))), z3.simplify(z3.Select(idsL, gq)))]
+            covered = z3.Or(*[z3.And(gq < sg.hi, z3.substitute(sg.cond, (sg.g, gq))) for sg in mine]) if mine else FALSE
+            goals.append(("rearm-set.complete", z3.Implies(z3.And(gq >= 0, gq < I.ops.list_len(L), z3.Select(idsL, gq) != src_id, z3.Select(idsL, gq) != tgt_id), covered)))
+            for n, sg in enumerate(mine):
+                pr = T.new_symbolic(I, "StageExecution", f"probe_rearm{n}")
+                d0 = I.st.dicts[I.getattr(pr, "context").did]
+                h0, v0 = d0.has, d0.vals
+                I.call(sg.mapv.items[1], [pr], {})
+                d1 = I.st.dicts[I.getattr(pr, "context").did]
+                goals.append((f"rearm{n}.not-started", I.getattr(pr, "status").t == status(I, "NOT_STARTED")))
+                for bk in ("_jump_count", "_jump_history", "_max_jumps"):
+                    kk = I.ops.lit(bk).t
+                    goals.append((f"rearm{n}.keeps{bk}", z3.And(z3.Select(d1.has, kk) == z3.Select(h0, kk), z3.Implies(z3.Select(h0, kk), z3.Select(d1.vals, kk) == z3.Select(v0, kk)))))
         # the last concrete mutations are (source, if not a self loop) and target
         if conc:
             tgt_mut = conc[-1]
